@@ -107,6 +107,15 @@ class Allocation3(Allocation):
 
 
 UNITS = [Allocation(), BudgetSplit(), Allocation3()]
+
+
+def LATE_UNITS():
+    # "never simulates a level above the configured maximum, returns only when the bias test passes or the maximum level has
+    # been reached, after every level has at least (within the 1 % rule) its optimal number of samples": the adaptive loop of
+    # Engine.price under an inductive invariant (contract kept with the sample accounting, c05)
+    from contracts import c05
+    return [c05.PriceLoop()]
+
 ASSUMPTIONS = ["A1: floats are mathematical reals; sqrt is the real square root", "estimated variances and costs are arbitrary non-negative reals"]
 TRUSTED_BASE = ["z3 5.1 (NRA)", "pyvc interpreter + numpy models"]
 
